@@ -177,10 +177,20 @@ func rewardsToPool(ctx *context) {
 	// distributes the rewards to block-proposer and the pools of other role of validators
 	proposer := ctx.db.GetValidatorByMainAddr(ctx.header.Coinbase)
 	if proposer == nil {
-		// an validator is removed from validators set only when its total staking is zero,
-		// and there's a WithdrawDelay when it do a withdraw, and the WithdrawDelay MUST greater then the StakeLookBack,
-		// so, the proposer MUST exist.
-		logging.Crit("SHOULD NOT HAPPENED. proposer not in the current validators set", "blockNumber", ctx.header.Number, "coinbase", ctx.header.Coinbase.String())
+		// A validator is removed as soon as a withdrawal that empties it takes effect (end of the
+		// period), but stays in the look-back validator set for StakeLookBack more blocks and
+		// may still propose. Its record is gone: keep the chamber share in the global residue
+		// (it is handed out with the next block) instead of killing the process.
+		logging.Error("proposer not in the current validators set", "blockNumber", ctx.header.Number, "coinbase", ctx.header.Coinbase.String())
+		for role, info := range roleRewards {
+			if role == params.RoleHouse {
+				initStat.GetByRole(role).AddRewards(info.rewards)
+			} else {
+				residue.Add(residue, info.rewards)
+			}
+		}
+		initStat.GetByKind(params.KindValidator).SetRewardsResidue(residue)
+		return
 	}
 
 	// starting from YouProtocol version V5, the proposer will get all rewards for chambers.
